@@ -498,6 +498,23 @@ class Desugar(ast.NodeTransformer):
 
     def visit_Assign(self, node):
         self.generic_visit(node)
+        # h = Record(f(), g())  ->  _h0 = f(); _h1 = g(); h = Record(_h0, _h1)
+        if len(node.targets) == 1 and isinstance(node.targets[0], ast.Name) and isinstance(node.value, ast.Call) and isinstance(node.value.func, ast.Name) \
+                and node.value.func.id in NT_NAMES and any(isinstance(x, ast.Call) for a_ in list(node.value.args) + [k.value for k in node.value.keywords] for x in ast.walk(a_)) \
+                and not any(isinstance(a_, ast.Starred) for a_ in node.value.args) and all(k.arg for k in node.value.keywords):
+            pre = []
+            k0 = next(_counter)
+            new_args, new_kws = [], []
+            for i_, a_ in enumerate(node.value.args):
+                nm = f"_{node.targets[0].id}{k0}_{i_}"
+                pre.append(ast.copy_location(ast.Assign(targets=[ast.Name(id=nm, ctx=ast.Store())], value=a_, lineno=node.lineno), node))
+                new_args.append(ast.Name(id=nm, ctx=ast.Load()))
+            for kw in node.value.keywords:
+                nm = f"_{node.targets[0].id}{k0}_{kw.arg}"
+                pre.append(ast.copy_location(ast.Assign(targets=[ast.Name(id=nm, ctx=ast.Store())], value=kw.value, lineno=node.lineno), node))
+                new_kws.append(ast.keyword(arg=kw.arg, value=ast.Name(id=nm, ctx=ast.Load())))
+            node.value = ast.Call(func=node.value.func, args=new_args, keywords=new_kws)
+            return pre + [node]
         # xs = [f(), g()]  ->  _x0 = f(); _x1 = g(); xs = [_x0, _x1]     (elements evaluated in the same order, then named)
         if len(node.targets) == 1 and isinstance(node.targets[0], ast.Name) and isinstance(node.value, (ast.List, ast.Tuple)) and 0 < len(node.value.elts) <= 8 \
                 and any(isinstance(x, ast.Call) for e in node.value.elts for x in ast.walk(e)) and not any(isinstance(e, ast.Starred) for e in node.value.elts):
@@ -644,8 +661,19 @@ def namedtuples(tree):
     for st in tree.body:
         if isinstance(st, ast.ClassDef) and any(ast.unparse(b) in ("NamedTuple", "typing.NamedTuple") for b in st.bases):
             fields = [s.target.id for s in st.body if isinstance(s, ast.AnnAssign) and isinstance(s.target, ast.Name)]
-            if fields and not any(isinstance(s, ast.FunctionDef) for s in st.body):
+            props = {}
+            simple = True
+            for s in st.body:
+                if isinstance(s, ast.FunctionDef):
+                    body = [b for b in s.body if not (isinstance(b, ast.Expr) and isinstance(b.value, ast.Constant))]
+                    if [ast.unparse(d) for d in s.decorator_list] == ["property"] and len(body) == 1 and isinstance(body[0], ast.Return) and body[0].value is not None \
+                            and len(s.args.args) == 1:
+                        props[s.name] = (s.args.args[0].arg, body[0].value)
+                    else:
+                        simple = False
+            if fields and simple:
                 out[st.name] = fields
+                NT_PROPS[st.name] = props
                 NT_DEFAULTS[st.name] = {s.target.id: s.value for s in st.body if isinstance(s, ast.AnnAssign) and isinstance(s.target, ast.Name) and s.value is not None}
         if isinstance(st, ast.Assign) and len(st.targets) == 1 and isinstance(st.targets[0], ast.Name) and isinstance(st.value, ast.Call) \
                 and ast.unparse(st.value.func) in ("namedtuple", "collections.namedtuple") and len(st.value.args) == 2:
@@ -658,6 +686,8 @@ def namedtuples(tree):
 
 
 NT_DEFAULTS = {}
+NT_PROPS = {}  # class -> {property name: expression over self}
+NT_NAMES = set()
 
 
 def _nt_args(call, fields):
@@ -693,6 +723,20 @@ class NamedTupleReduce(ast.NodeTransformer):
         if a is not None and isinstance(node.ctx, ast.Load) and node.attr in self.nts[node.value.func.id]:
             self.changed = True
             return a[self.nts[node.value.func.id].index(node.attr)]
+        if a is not None and isinstance(node.ctx, ast.Load) and node.attr in NT_PROPS.get(node.value.func.id, {}):
+            # a property of the record: its expression with self.<field> replaced by the constructor arguments
+            selfname, expr = NT_PROPS[node.value.func.id][node.attr]
+            fields = self.nts[node.value.func.id]
+
+            class P(ast.NodeTransformer):
+                def visit_Attribute(self, n):
+                    if isinstance(n.value, ast.Name) and n.value.id == selfname and n.attr in fields:
+                        return copy.deepcopy(a[fields.index(n.attr)])
+                    self.generic_visit(n)
+                    return n
+
+            self.changed = True
+            return P().visit(copy.deepcopy(expr))
         return node
 
     def visit_Subscript(self, node):
